@@ -18,6 +18,7 @@ Rules
 from __future__ import annotations
 
 import ast
+import re
 
 from ..core import Result
 from ..engines import sib
@@ -33,34 +34,34 @@ MIN_PAIRS = 75
 REVIEWED: dict[str, tuple[str, str]] = {
     # qual of async member: (digest, reason)
     "liquid.context.RenderContext.get_item_async": (
-        "2882186424cfe7bd",
+        "89e8e0d6227d842c",
         "extension point: the only difference is the __getitem_async__ probe on the data "
         "object; for data without that protocol (SIB-EXT) the helper is obj[key]",
     ),
     "liquid.template.BoundTemplate.is_up_to_date_async": (
-        "5a8ac4b5665da1e2",
+        "1adb20abaebc98bf",
         "awaits an awaitable uptodate and skips the is-bool check, which only a misbehaving "
         "custom loader can trip; built-in loaders return bool (or a coroutine of bool)",
     ),
     "liquid.builtin.expressions.filtered.Filter.evaluate_async": (
-        "38559a21d176f215",
+        "cc39c18e1ea7dd42",
         "extension point: filter_async is used only when the filter object defines it; no "
         "built-in or extra filter does (SIB-EXT)",
     ),
     "liquid.builtin.expressions.loop.LoopExpression.evaluate_async": (
-        "46acea2d85126de0",
+        "9d4b69b92a4016ad",
         "branch order of two disjoint tests (offset is None / isinstance StringLiteral) and "
         "StringLiteral.evaluate(context) vs .value: equal as str (Markup subclasses str, compares "
         "and converts with to_int identically)",
     ),
     "liquid.builtin.tags.if_tag.IfNode.render_to_output_async": (
-        "036a7e0119504f7a",
+        "5d07df00bffdfa41",
         "elsif: async renders the ConditionalBlockNode (re-checks disabled tags on an 'elsif' "
         "token, re-evaluates the same condition on the same data) instead of its block directly; "
         "'elsif' is never a disabled tag and conditions are effect-free on JSON-like data",
     ),
     "liquid.extra.tags.macro_tag.CallNode.render_to_output_async": (
-        "88ad28413ccc7a59",
+        "474f8fcae00078ed",
         "is_undefined(x) is isinstance(x, Undefined); the extra assert holds because only "
         "MacroNode stores into tag_namespace['macros'] and it stores Macro instances",
     ),
@@ -163,7 +164,11 @@ def run(repo: Repo) -> Result:
             res.sample({"pair": a.qual, "verdict": "identical normal forms", "nf_digest": sib.digest(ns)})
             continue
         d = sib.diff(ns, na)
-        dg = sib.digest("\n".join(l for l in d if l[:1] in "+-" and l[:3] not in ("+++", "---")))
+        # digest of the changed lines only, with the numbering of alpha-renamed locals blanked and
+        # order ignored: an edit made identically to both twins (a shared helper, a new local
+        # before the differing statement) does not re-open a reviewed row; an edit to the
+        # differing statements does
+        dg = sib.digest("\n".join(sorted(re.sub(r"\bv\d+\b", "v", l).strip() for l in d if l[:1] in "+-" and l[:3] not in ("+++", "---"))))
         row = REVIEWED.get(a.qual)
         if row and row[0] == dg:
             n_reviewed += 1
